@@ -142,9 +142,13 @@ def _check_gvap(case):
     pt = PT("p", [(t, "l%d" % i) for i, t in enumerate(pts)], 0, 3)  # several points may share a timestamp
     viols = []
     for fuzzy in (False, True):
-        st, r, _ = call(pt.getValuesAtPoints, list(Dl), fuzzy)
+        handed = list(Dl)   # the caller's own list: a query reads it, the caller finds it as it was
+        st, r, _ = call(pt.getValuesAtPoints, handed, fuzzy)
         if st == "exc":
             viols.append(Viol("getValuesAtPoints-raised", f"data {Dl} points {pts} fuzzy={fuzzy}: {r!r}"))
+            continue
+        if handed != Dl or any(x is not y for x, y in zip(handed, Dl)):
+            viols.append(Viol("query-changed-the-callers-list", f"getValuesAtPoints(data, {fuzzy}) on points {pts}: the data list handed in was {Dl}, afterwards it is {handed}"))
             continue
         if len(r) != len(pts):
             viols.append(Viol("getValuesAtPoints", f"{len(r)} rows for {len(pts)} points"))
